@@ -9,7 +9,7 @@
 namespace sim {
 namespace rt {
 
-enum Strategy { S_SYNC = 0, S_RANDOM = 1, S_PCT = 2, S_CONFLICT = 3, S_REPLAY = 4 };
+enum Strategy { S_SYNC = 0, S_RANDOM = 1, S_PCT = 2, S_CONFLICT = 3, S_REPLAY = 4, S_ENUM = 5 };
 
 struct SchedEntry { int task; uint64_t yield; int next; };
 
@@ -21,6 +21,9 @@ struct Config {
   uint64_t pct_k = 400000; // S_PCT: assumed number of steps
   uint64_t max_steps = 60000000;
   std::vector<SchedEntry> schedule;  // S_REPLAY
+  // S_ENUM: otherwise default scheduling, with exactly these forced switches: at the k-th synchronisation
+  // decision point of the run (mutex lock/unlock, atomic operation, harness hand-off), switch to task `to`
+  std::vector<std::pair<uint64_t, int>> enum_points;
 };
 
 struct Race {
